@@ -774,6 +774,33 @@ func sameExpr(a, b ssa.Value) bool {
 		ca, oka := ConstInt(x)
 		cb, okb := ConstInt(y)
 		return oka && okb && ca == cb
+	case *ssa.UnOp:
+		// two loads of one local variable with every write to it (a store, or a call that is handed its address)
+		// before both of them
+		y, ok := b.(*ssa.UnOp)
+		if !ok || x.Op != token.MUL || y.Op != token.MUL || x.X != y.X {
+			return false
+		}
+		al, isAlloc := x.X.(*ssa.Alloc)
+		if !isAlloc || al.Referrers() == nil {
+			return false
+		}
+		for _, ref := range *al.Referrers() {
+			switch w := ref.(type) {
+			case *ssa.Store:
+				if w.Addr == ssa.Value(al) && !(Dominates(w, x) && Dominates(w, y)) {
+					return false
+				}
+			case *ssa.Call:
+				if !(Dominates(w, x) && Dominates(w, y)) {
+					return false
+				}
+			case *ssa.UnOp, *ssa.DebugRef:
+			default:
+				return false
+			}
+		}
+		return true
 	}
 	return false
 }
